@@ -267,4 +267,188 @@ def MutKind.atomic (k : MutKind W) (g : Genome W) (reg : Reg W) (rs : List Nat) 
   | .addNode o => mutateAddNode g reg o rs
   | .connectSensors => mutateConnectSensors g reg rs
 
+/-! ### one species goroutine: `Species.reproduce` with the registry accesses explicit -/
+
+/-- force the success flag of a structural mutator to `true` (the callers ignore it: `mutateAddNode(...)` result dropped) -/
+def flagTrue (r : MRes W) : Prog W (MRes W) :=
+  match r with
+  | .error e => .done (.error e)
+  | .ok ((g', _), rs') => .done (.ok ((g', true), rs'))
+
+/-- the structural stage of `mutateBaby` -/
+def structStageP (o : EpochOpts W) (g : Genome W) (f1 : W) (rs1 : List Nat) : Prog W (MRes W) :=
+  if lt f1 o.mutateAddNodeProb then (mutateAddNodeP g o.mopts rs1).bind flagTrue
+  else
+    match Rand.float64 (W := W) rs1 with
+    | .error e => .done (.error e)
+    | .ok (f2, rs2) =>
+      if lt f2 o.mutateAddLinkProb then (mutateAddLinkP g o.mopts rs2).bind flagTrue
+      else
+        match Rand.float64 (W := W) rs2 with
+        | .error e => .done (.error e)
+        | .ok (f3, rs3) =>
+          if lt f3 o.mutateConnectSensors then mutateConnectSensorsP g rs3
+          else .done (.ok ((g, false), rs3))
+
+/-- the parametric stage of `mutateBaby` (no registry access) -/
+def paramStage (o : EpochOpts W) (r : MRes W) : Prog W (MRes W) :=
+  match r with
+  | .error e => .done (.error e)
+  | .ok ((g', true), rs') => .done (.ok ((g', true), rs'))
+  | .ok ((g', false), rs') =>
+    match mutateAllNonstructural g' o.mopts rs' with
+    | .error e => .done (.error e)
+    | .ok (g'', rs'') => .done (.ok ((g'', false), rs''))
+
+/-- `mutateBaby` of Model/Epoch.lean -/
+def mutateBabyP (o : EpochOpts W) (g : Genome W) (rs : List Nat) : Prog W (MRes W) :=
+  match Rand.float64 (W := W) rs with
+  | .error e => .done (.error e)
+  | .ok (f1, rs1) => (structStageP o g f1 rs1).bind (paramStage o)
+
+abbrev SRes (W : Type) := Except Stop (ReproState W × List Nat)
+
+/-- the baby is appended; the `reg` field of the running state is not used by the non-atomic model -/
+def finishP (generation : Int) (g : Genome W) (mutStruct mateBaby : Bool) (popChild : Bool) (hf : W) (st : ReproState W) :
+    ReproState W :=
+  let baby : Org W := { newOrganism st.nextUid g generation with
+                        mutStructBaby := mutStruct, mateBaby := mateBaby, isPopChampionChild := popChild, highestFitness := hf }
+  { st with nextUid := st.nextUid + 1, babies := st.babies ++ [baby] }
+
+/-- the super-champion mutation -/
+def superChampMutP (o : EpochOpts W) (g0 : Genome W) (superChamp : Int) (rs : List Nat) : Prog W (MRes W) :=
+  if superChamp > 1 then
+    match Rand.float64 (W := W) rs with
+    | .error e => .done (.error e)
+    | .ok (f, rs1) =>
+      if lt f (ofDec 8 1) || eq o.mutateAddLinkProb zero then
+        match mutateLinkWeights g0 o.mopts.weightMutPower one .gaussian rs1 with
+        | .error e => .done (.error e)
+        | .ok (g1, rs2) => .done (.ok ((g1, false), rs2))
+      else (mutateAddLinkP g0 o.mopts rs1).bind flagTrue
+  else .done (.ok ((g0, false), rs))
+
+/-- the mate of `mom` (same species, or the champion of another species) -/
+def pickDad (o : EpochOpts W) (s : Species W) (sorted : List (Species W)) (f2 : W) (rs3 : List Nat) : R (Org W) :=
+  if gt f2 o.interspeciesMateRate then
+    match Rand.intn s.orgs.length rs3 with
+    | .error e => .error e
+    | .ok (k2, rs4) =>
+      match s.orgs[k2]? with
+      | none => .error (.error "panic:index")
+      | some d => .ok (d, rs4)
+  else
+    match pickOtherSpecies s sorted 5 s rs3 with
+    | .error e => .error e
+    | .ok (sp, rs4) =>
+      match sp.orgs.head? with
+      | none => .error (.error "panic:index")
+      | some d => .ok (d, rs4)
+
+/-- the crossover -/
+def mateChild (o : EpochOpts W) (mom dad : Org W) (count : Int) (f3 : W) (rs5 : List Nat) : R (Genome W) :=
+  if lt f3 o.mateMultipointProb then
+    mateMultipoint mom.genome dad.genome count mom.originalFitness dad.originalFitness rs5
+  else
+    match Rand.float64 (W := W) rs5 with
+    | .error e => .error e
+    | .ok (f4, rs6) =>
+      if lt f4 (div o.mateMultipointAvgProb (add o.mateMultipointAvgProb o.mateSinglepointProb)) then
+        mateMultipointAvg mom.genome dad.genome count mom.originalFitness dad.originalFitness rs6
+      else mateSinglePoint mom.genome dad.genome count rs6
+
+/-- one offspring of `Species.reproduce` -/
+def reproduceOneP (o : EpochOpts W) (generation : Int) (s : Species W) (sorted : List (Species W)) (champ : Org W)
+    (count : Int) (st : ReproState W) (rs : List Nat) : Prog W (SRes W) :=
+  let poolSize := s.orgs.length
+  if st.superChamp > 0 then
+    match champ.genome.duplicate count with
+    | .error e => .done (.error e)
+    | .ok g0 =>
+      (superChampMutP o g0 st.superChamp rs).bind fun r =>
+        match r with
+        | .error e => .done (.error e)
+        | .ok ((g1, ms), rs') =>
+          let last := st.superChamp == 1 && champ.isPopChampion
+          let st' := finishP generation g1 ms false last (if last then champ.originalFitness else zero) st
+          .done (.ok ({ st' with superChamp := st.superChamp - 1 }, rs'))
+  else if !st.champCloneDone && s.expectedOffspring > 5 then
+    match champ.genome.duplicate count with
+    | .error e => .done (.error e)
+    | .ok g0 => .done (.ok ({ finishP generation g0 false false false zero st with champCloneDone := true }, rs))
+  else
+    match Rand.float64 (W := W) rs with
+    | .error e => .done (.error e)
+    | .ok (f, rs1) =>
+      if lt f o.mutateOnlyProb || poolSize == 1 then
+        match Rand.intn poolSize rs1 with
+        | .error e => .done (.error e)
+        | .ok (k, rs2) =>
+          match s.orgs[k]? with
+          | none => .done (.error (.error "panic:index"))
+          | some mom =>
+            match mom.genome.duplicate count with
+            | .error e => .done (.error e)
+            | .ok g0 =>
+              (mutateBabyP o g0 rs2).bind fun r =>
+                match r with
+                | .error e => .done (.error e)
+                | .ok ((g1, ms), rs3) => .done (.ok (finishP generation g1 ms false false zero st, rs3))
+      else
+        match Rand.intn poolSize rs1 with
+        | .error e => .done (.error e)
+        | .ok (k, rs2) =>
+          match s.orgs[k]? with
+          | none => .done (.error (.error "panic:index"))
+          | some mom =>
+            match Rand.float64 (W := W) rs2 with
+            | .error e => .done (.error e)
+            | .ok (f2, rs3) =>
+              match pickDad o s sorted f2 rs3 with
+              | .error e => .done (.error e)
+              | .ok (dad, rs4) =>
+                match Rand.float64 (W := W) rs4 with
+                | .error e => .done (.error e)
+                | .ok (f3, rs5) =>
+                  match mateChild o mom dad count f3 rs5 with
+                  | .error e => .done (.error e)
+                  | .ok (child, rs7) =>
+                    match Rand.float64 (W := W) rs7 with
+                    | .error e => .done (.error e)
+                    | .ok (f5, rs8) =>
+                      if gt f5 o.mateOnlyProb || dad.genome.id == mom.genome.id ||
+                         eq (compatibility o.compat dad.genome mom.genome) zero then
+                        (mutateBabyP o child rs8).bind fun r =>
+                          match r with
+                          | .error e => .done (.error e)
+                          | .ok ((g1, ms), rs9) => .done (.ok (finishP generation g1 ms true false zero st, rs9))
+                      else .done (.ok (finishP generation child false true false zero st, rs8))
+
+def reproduceLoopP (o : EpochOpts W) (generation : Int) (s : Species W) (sorted : List (Species W)) (champ : Org W) :
+    Nat → Int → ReproState W → List Nat → Prog W (SRes W)
+  | 0, _, st, rs => .done (.ok (st, rs))
+  | n + 1, count, st, rs =>
+    (reproduceOneP o generation s sorted champ count st rs).bind fun r =>
+      match r with
+      | .error e => .done (.error e)
+      | .ok (st', rs') => reproduceLoopP o generation s sorted champ n (count + 1) st' rs'
+
+/-- result of a species goroutine: the babies, the next allocation id (ghost) and the rest of its random numbers -/
+abbrev BRes (W : Type) := Except Stop ((List (Org W) × Nat) × List Nat)
+
+/-- `Species.reproduce` as run by one goroutine of the parallel executor (`reg0` only fills the unused `reg` field of
+    the running state) -/
+def reproduceSpeciesP (o : EpochOpts W) (generation : Int) (s : Species W) (sorted : List (Species W)) (reg0 : Reg W)
+    (nextUid : Nat) (rs : List Nat) : Prog W (BRes W) :=
+  match s.orgs.head? with
+  | none =>
+    if s.expectedOffspring > 0 then .done (.error (.error "reproduceEmptySpecies")) else .done (.error (.error "panic:index"))
+  | some champ =>
+    let st0 : ReproState W := { superChamp := champ.superChampOffspring, champCloneDone := false, reg := reg0,
+                                nextUid := nextUid, babies := [] }
+    (reproduceLoopP o generation s sorted champ s.expectedOffspring.toNat 0 st0 rs).bind fun r =>
+      match r with
+      | .error e => .done (.error e)
+      | .ok (st, rs') => .done (.ok ((st.babies, st.nextUid), rs'))
+
 end GoNeat.C16
